@@ -8,6 +8,15 @@ the compared value on each edge; a path whose refinement is empty is infeasible 
 join, over all feasible paths, of the interval(s) of the returned value (struct fields kept apart), plus for every arithmetic
 `Assert` (overflow / division by zero) whether the interval of its operands proves it cannot fire.
 
+Relational part (a reduced product with the intervals, still no concrete evaluation): every value also carries an exact *affine
+form* over "roots" (the values first read from the function's inputs, and the results of non-linear steps): v = sum c_i * r_i + d;
+a root produced by a remainder by a constant m carries a *congruence* r == form(x) (mod m). `checked_*` operations of core::num
+yield a wrapped value (Option / ControlFlow payload) with the exact mathematical form, a flag whether the failure side is possible
+at all (the mathematical interval leaves the type's range) and are followed through `Try::branch` and discriminant switches.
+`rel_to` gives the interval of (v - input) and `mod_form` the affine form of v modulo m after substituting the congruences, which
+together decide statements such as "the result is the input rounded down to a multiple of m" or "the result is the input's
+non-negative remainder modulo m" for every input.
+
 Sound for the operations modelled (Add, Sub, Mul, Neg, Div and Rem by a non-zero constant, comparisons, rem_euclid with a positive
 constant modulus, abs); everything else yields the full range of the type. Functions with loops are refused (Unsupported).
 """
@@ -30,6 +39,41 @@ def _pkey(p):
     return repr([p[0]] + [("f", e[1]) if isinstance(e, list) and e and e[0] == "f" else (tuple(e) if isinstance(e, list) else e) for e in p[1:]])
 
 
+def place_desc(p):
+    """`_1.epoch`, `(*_1).ms`: a readable, name-based description of an input place (field names, not local names)."""
+    out = "_%d" % p[0]
+    for e in p[1:]:
+        if e == "*" or (isinstance(e, list) and e and e[0] == "*"):
+            out = "(*%s)" % out
+        elif isinstance(e, list) and e and e[0] == "f":
+            out += "." + (e[2] if e[2] else str(e[1]))
+        elif isinstance(e, list) and e and e[0] == "d":
+            out = "(%s as %s)" % (out, e[1])
+        else:
+            out += "[?]"
+    return out
+
+
+# ---- exact affine forms over roots: ({root: coeff}, d) ------------------------------------------------------------------
+def aff_const(k):
+    return ({}, k)
+
+
+def aff_add(a, b, sign=1):
+    c = dict(a[0])
+    for r, k in b[0].items():
+        c[r] = c.get(r, 0) + sign * k
+        if c[r] == 0:
+            del c[r]
+    return (c, a[1] + sign * b[1])
+
+
+def aff_scale(a, k):
+    if k == 0:
+        return ({}, 0)
+    return ({r: c * k for r, c in a[0].items()}, a[1] * k)
+
+
 class State:
     def __init__(self):
         self.iv = {}      # value key -> (lo, hi)
@@ -37,6 +81,14 @@ class State:
         self.pred = {}    # place key (bool) -> (value key, op, const)  meaning  bool <=> value op const
         self.agg = {}     # place key -> {field name: value key}
         self.rem = {}     # value key r -> (value key x, c): r = x % c  (the sign of r follows x: the one relational fact kept)
+        self.aff = {}     # value key -> ({root: coeff}, d): exact affine form (absent: the value is its own root)
+        self.cong = {}    # root -> (({root: coeff}, d), m): root == form (mod m)
+        self.origin = {}  # root -> description of the input place it was first read from
+        self.wrap = {}    # place key -> (payload value key, can_fail, can_succeed, description)  (Option<int> / ControlFlow)
+        self.ovf = {}     # place key of an overflow flag -> (value key, exact form) valid once the assert on the flag has passed
+        self.discof = {}  # value key of a discriminant -> (wrap tuple, discriminant value of the payload variant)
+        self.variant = {} # aggregate key -> variant name
+        self.none_steps = []  # checked steps whose failure side was taken on this path
         self.n = 0
 
     def copy(self):
@@ -44,6 +96,8 @@ class State:
         s.iv = dict(self.iv); s.alias = dict(self.alias); s.pred = dict(self.pred)
         s.agg = {k: dict(v) for k, v in self.agg.items()}; s.n = self.n
         s.rem = dict(self.rem)
+        s.aff = dict(self.aff); s.cong = dict(self.cong); s.origin = dict(self.origin); s.wrap = dict(self.wrap)
+        s.ovf = dict(self.ovf); s.discof = dict(self.discof); s.variant = dict(self.variant); s.none_steps = list(self.none_steps)
         return s
 
     def fresh(self, lo, hi):
@@ -54,10 +108,14 @@ class State:
 
 
 class Analysis:
-    def __init__(self, fn, max_paths=256):
+    def __init__(self, fn, max_paths=256, resolver=None):
         self.f = fn
         self.max_paths = max_paths
+        self.resolver = resolver    # name -> Fn (facts.fn): lets `Option::map(checked result, capture-less closure)` be followed
         self.returns = []       # list of {"": (lo,hi)} or {field: (lo,hi)}
+        self.rets = []          # list of (final state, value key of the returned value)
+        self.checked_log = {}   # (block, checked op) -> named exact form of its mathematical result
+        self.cur = 0
         self.asserts = {}       # (block, kind) -> proved on every path reaching it?
         self.paths = 0
         # locals that are mutably borrowed, or written through a projection, anywhere in the body: reads of places rooted
@@ -87,6 +145,10 @@ class Analysis:
         k = _pkey(p)
         if k in st.alias:
             return st.alias[k]
+        # payload of a wrapped checked result: (_x as Continue).0 / (_x as Some).0
+        if len(p) == 3 and isinstance(p[1], list) and p[1][0] == "d" and p[1][1] in ("Continue", "Some") \
+                and isinstance(p[2], list) and p[2][0] == "f" and p[2][1] == 0 and _pkey(p[:1]) in st.wrap:
+            return st.wrap[_pkey(p[:1])][0]
         # field of a tracked aggregate
         if len(p) >= 2 and p[-1][0] == "f":
             base = _pkey(p[:-1])
@@ -97,6 +159,7 @@ class Analysis:
                     return vk
         r = default_range or (self.ty_range(p[0]) if len(p) == 1 else None) or RANGES["i128"]
         vk = st.fresh(*r)
+        st.origin[vk] = place_desc(p)
         shared_ref = self.f.locals[p[0]].startswith("&") and not self.f.locals[p[0]].startswith("&mut")
         if not (p[0] in self.mutroots and len(p) > 1) and ("*" not in p[1:] or shared_ref):
             st.alias[k] = vk
@@ -129,6 +192,69 @@ class Analysis:
             return st.iv[a[1]]
         return None
 
+    def aff_of(self, st, a):
+        """Exact affine form of an operand result ('i', vk) / ('k', c), or None."""
+        if a[0] == "k":
+            return aff_const(a[1])
+        if a[0] == "i":
+            return st.aff.get(a[1]) or ({a[1]: 1}, 0)
+        return None
+
+    def set_aff(self, st, vk, form):
+        if form is not None and form != ({vk: 1}, 0):
+            st.aff[vk] = form
+
+    # -- queries on a final state -------------------------------------------------------------------------------------
+    def root_name(self, st, r):
+        return st.origin.get(r, r)
+
+    def form_named(self, st, form):
+        return ({self.root_name(st, r): c for r, c in form[0].items()}, form[1])
+
+    def eval_form(self, st, form):
+        lo = hi = form[1]
+        for r, c in form[0].items():
+            a, b = st.iv[r]
+            lo += min(c * a, c * b); hi += max(c * a, c * b)
+        return (lo, hi)
+
+    def rel_to(self, st, vk, origin):
+        """Interval of (v - x) where x is the input read from `origin`; None when v's form does not mention x."""
+        form = st.aff.get(vk) or ({vk: 1}, 0)
+        xs = [r for r in form[0] if st.origin.get(r) == origin]
+        if len(xs) != 1:
+            return None
+        rest = aff_add(form, ({xs[0]: 1}, 0), -1)
+        return self.eval_form(st, rest)
+
+    def mod_form(self, st, vk, m):
+        """Affine form of v modulo m over named input roots, after substituting r == form (mod m') for remainder roots
+        whose modulus m' is a multiple of m."""
+        form = st.aff.get(vk) or ({vk: 1}, 0)
+        for _ in range(64):
+            sub = [r for r in form[0] if r in st.cong and st.cong[r][1] % m == 0]
+            if not sub:
+                break
+            r = sub[0]
+            c = form[0][r]
+            form = aff_add(aff_add(form, ({r: c}, 0), -1), aff_scale(st.cong[r][0], c))
+        coeffs = {}
+        for r, c in form[0].items():
+            c %= m
+            if c:
+                n = self.root_name(st, r)
+                coeffs[n] = (coeffs.get(n, 0) + c) % m
+        return ({n: c for n, c in coeffs.items() if c}, form[1] % m)
+
+    def leaves(self, st, vk, prefix=""):
+        """Flatten a returned value into {leaf path: value key}; aggregates by field name."""
+        if vk in st.agg:
+            out = {}
+            for n, k in st.agg[vk].items():
+                out.update(self.leaves(st, k, (prefix + "." if prefix else "") + n))
+            return out
+        return {prefix: vk}
+
     # -- transfer -------------------------------------------------------------------------------------------------
     def binop(self, op, x, y, ty):
         full = RANGES.get(ty, RANGES["i128"])
@@ -156,16 +282,36 @@ class Analysis:
             return full
         return r
 
+    def lin(self, st, op, x, y):
+        """Exact affine form of `x op y`, or None."""
+        fx, fy = self.aff_of(st, x), self.aff_of(st, y)
+        if fx is None or fy is None:
+            return None
+        base = op.replace("WithOverflow", "").replace("Unchecked", "")
+        if base == "Add":
+            return aff_add(fx, fy, 1)
+        if base == "Sub":
+            return aff_add(fx, fy, -1)
+        if base == "Mul":
+            if y[0] == "k":
+                return aff_scale(fx, y[1])
+            if x[0] == "k":
+                return aff_scale(fy, x[1])
+        return None
+
     def fits(self, r, ty):
         full = RANGES.get(ty)
         return full is not None and full[0] <= r[0] and r[1] <= full[1]
 
     def assign(self, st, dest, rv):
         dk = _pkey(dest)
-        st.alias.pop(dk, None); st.pred.pop(dk, None)
+        st.alias.pop(dk, None); st.pred.pop(dk, None); st.wrap.pop(dk, None)
         k = rv[0]
         dty = self.place_ty(dest)
         if k == "use":
+            if rv[1][0] in "cm" and _pkey(rv[1][1]) in st.wrap:
+                st.wrap[dk] = st.wrap[_pkey(rv[1][1])]
+                return
             a = self.operand(st, rv[1], dty)
             if a[0] == "i":
                 st.alias[dk] = a[1]
@@ -203,6 +349,7 @@ class Analysis:
             elif rv[3][0] in "cm" and len(rv[3][1]) == 1:
                 ity = self.f.locals[rv[3][1][0]]
             r = self.binop(op, self.ival(st, x), self.ival(st, y), ity or dty)
+            form = self.lin(st, op, x, y)
             if op.endswith("WithOverflow"):
                 ok = ity is not None and self.fits(r, ity)
                 full = RANGES.get(ity, RANGES["i128"])
@@ -210,15 +357,25 @@ class Analysis:
                 ak = st.fresh(0, 0)
                 st.agg[ak] = {"0": vk}
                 st.alias[dk] = ak
-                st.pred[_pkey(dest + [["f", 1, None]])] = ("const", "Is", False) if ok else ("unknown", "Is", None)
+                fk = _pkey(dest + [["f", 1, None]])
+                st.pred[fk] = ("const", "Is", False) if ok else ("unknown", "Is", None)
                 st.alias[_pkey(dest + [["f", 0, None]])] = vk
+                if ok:
+                    self.set_aff(st, vk, form)
+                elif form is not None:
+                    # the mathematical form (and range) hold once the overflow assert on the flag has passed
+                    st.ovf[fk] = (vk, form, (max(r[0], full[0]), min(r[1], full[1])))
                 return
             full = RANGES.get(dty or ity, RANGES["i128"])
-            if not (full[0] <= r[0] and r[1] <= full[1]):
+            exact = full[0] <= r[0] and r[1] <= full[1]
+            if not exact:
                 r = full
             st.alias[dk] = st.fresh(*r)
+            if exact:
+                self.set_aff(st, st.alias[dk], form)
             if op == "Rem" and x[0] == "i" and y[0] == "k" and y[1] != 0:
                 st.rem[st.alias[dk]] = (x[1], y[1])
+                st.cong[st.alias[dk]] = (self.aff_of(st, x), abs(y[1]))
             return
         if k == "un" and rv[1] == "Not":
             a = self.operand(st, rv[2])
@@ -234,6 +391,8 @@ class Analysis:
             x = self.ival(st, a)
             if x is not None:
                 st.alias[dk] = st.fresh(-x[1], -x[0])
+                if dty and self.fits((-x[1], -x[0]), dty):
+                    self.set_aff(st, st.alias[dk], aff_scale(self.aff_of(st, a), -1))
             return
         if k == "agg" and rv[1][0] == "adt":
             names = rv[1][3]
@@ -246,6 +405,7 @@ class Analysis:
                 elif a[0] == "k":
                     flds[n] = st.fresh(a[1], a[1])
             st.agg[ak] = flds
+            st.variant[ak] = rv[1][2]
             st.alias[dk] = ak
             return
         if k == "cast":
@@ -254,6 +414,16 @@ class Analysis:
             tgt = RANGES.get(dty)
             if x is not None and tgt and tgt[0] <= x[0] and x[1] <= tgt[1]:
                 st.alias[dk] = st.fresh(*x)
+                self.set_aff(st, st.alias[dk], self.aff_of(st, a))
+            return
+        if k == "disc":
+            wk = _pkey(rv[1])
+            if wk in st.wrap:
+                okv = 0 if str(rv[2]).endswith("ControlFlow") else 1 if str(rv[2]).endswith("Option") else None
+                if okv is not None:
+                    vk = st.fresh(0, 1)
+                    st.discof[vk] = (st.wrap[wk], okv)
+                    st.alias[dk] = vk
             return
         # anything else: unknown (fresh on demand)
 
@@ -261,21 +431,102 @@ class Analysis:
         c = callee(t)
         dest = t[3]
         dk = _pkey(dest)
-        st.alias.pop(dk, None); st.pred.pop(dk, None)
+        st.alias.pop(dk, None); st.pred.pop(dk, None); st.wrap.pop(dk, None)
         last = c.split("::")[-1]
+        if last == "branch" and "Try" in c and len(t[2]) == 1 and t[2][0][0] in "cm" and _pkey(t[2][0][1]) in st.wrap:
+            st.wrap[dk] = st.wrap[_pkey(t[2][0][1])]
+            return
+        if last == "map" and "option::Option" in c and len(t[2]) == 2 and t[2][0][0] in "cm" and _pkey(t[2][0][1]) in st.wrap \
+                and self.resolver is not None and t[2][1][0] in "cm" and len(t[2][1][1]) == 1:
+            w = self.map_closure(st, st.wrap[_pkey(t[2][0][1])], t[2][1][1][0])
+            if w is not None:
+                st.wrap[dk] = w
+            return
         args = [self.operand(st, o) for o in t[2]]
         if c.startswith("core::num::") or c.startswith("std::num::"):
+            ity = None
+            if t[2] and t[2][0][0] in "cm" and len(t[2][0][1]) == 1:
+                ity = self.f.locals[t[2][0][1][0]]
+            elif len(t[2]) > 1 and t[2][1][0] == "k":
+                ity = t[2][1][1].get("t")
+            if last in ("checked_add", "checked_sub", "checked_mul") and len(args) == 2 and args[0][0] in "ik" and args[1][0] in "ik" and ity in RANGES:
+                op = {"checked_add": "Add", "checked_sub": "Sub", "checked_mul": "Mul"}[last]
+                r = self.binop(op, self.ival(st, args[0]), self.ival(st, args[1]), ity)
+                full = RANGES[ity]
+                form = self.lin(st, op, args[0], args[1])
+                can_fail = not self.fits(r, ity)
+                lo, hi = max(r[0], full[0]), min(r[1], full[1])
+                can_succeed = lo <= hi
+                vk = st.fresh(*((lo, hi) if can_succeed else full))
+                self.set_aff(st, vk, form)
+                desc = "%s@bb%d" % (last, self.cur)
+                st.wrap[dk] = (vk, can_fail, can_succeed, desc)
+                self.checked_log.setdefault((self.cur, last), self.form_named(st, form) if form is not None else None)
+                return
+            if last in ("checked_rem_euclid", "checked_rem") and len(args) == 2 and args[0][0] == "i" and args[1][0] == "k" and args[1][1] not in (0, -1):
+                m = abs(args[1][1])
+                if last == "checked_rem_euclid":
+                    vk = st.fresh(0, m - 1)
+                else:
+                    vk = st.fresh(*self.binop("Rem", self.ival(st, args[0]), (args[1][1], args[1][1]), ity))
+                    st.rem[vk] = (args[0][1], args[1][1])
+                st.cong[vk] = (self.aff_of(st, args[0]), m)
+                st.wrap[dk] = (vk, False, True, "%s@bb%d" % (last, self.cur))
+                self.checked_log.setdefault((self.cur, last), ("rem", self.form_named(st, self.aff_of(st, args[0])), m))
+                return
             if last in ("is_negative", "is_positive") and args and args[0][0] == "i":
                 st.pred[dk] = (args[0][1], "Lt" if last == "is_negative" else "Gt", 0)
                 return
             if last == "rem_euclid" and len(args) == 2 and args[1][0] == "k" and args[1][1] > 0:
                 st.alias[dk] = st.fresh(0, args[1][1] - 1)
+                if args[0][0] in "ik":
+                    st.cong[st.alias[dk]] = (self.aff_of(st, args[0]), args[1][1])
                 return
             if last in ("abs", "unsigned_abs") and args and args[0][0] in "ik":
                 a, b = self.ival(st, args[0])
                 lo = 0 if a <= 0 <= b else min(abs(a), abs(b))
                 st.alias[dk] = st.fresh(lo, max(abs(a), abs(b)))
                 return
+
+    def map_closure(self, st, w, clocal):
+        """`wrapped.map(closure)`: analyse the capture-less closure once and re-express what it returns over the payload."""
+        name = None
+        for _b, s_ in self.f.stmts():
+            if s_[0] == "a" and s_[1] == [clocal] and s_[2][0] == "agg" and s_[2][1][0] == "closure":
+                if s_[2][2]:
+                    return None     # captures: not followed
+                name = s_[2][1][1]
+        g = self.resolver(name) if name else None
+        if g is None:
+            return None
+        try:
+            sub = Analysis(g, self.max_paths, self.resolver).run()
+        except Unsupported:
+            return None
+        if len(sub.rets) != 1 or sub.rets[0][0].none_steps:
+            return None
+        sst, svk = sub.rets[0]
+        pvk = w[0]
+        pform = st.aff.get(pvk) or ({pvk: 1}, 0)
+
+        def imp(k):
+            if k in sst.agg:
+                ak = st.fresh(0, 0)
+                st.agg[ak] = {n: imp(c) for n, c in sst.agg[k].items()}
+                if k in sst.variant:
+                    st.variant[ak] = sst.variant[k]
+                return ak
+            form = sst.aff.get(k) or ({k: 1}, 0)
+            if all(sst.origin.get(r) == "_2" for r in form[0]) and not any(r in sst.cong for r in form[0]):
+                coeff = sum(form[0].values())
+                nf = aff_add(aff_scale(pform, coeff), aff_const(form[1]))
+                lo, hi = self.eval_form(st, nf)
+                a, b = st.iv[pvk] if coeff == 1 and form[1] == 0 else (lo, hi)
+                nk = st.fresh(max(lo, a), min(hi, b)) if max(lo, a) <= min(hi, b) else st.fresh(lo, hi)
+                self.set_aff(st, nk, nf)
+                return nk
+            return st.fresh(*sst.iv[k])
+        return (imp(svk), w[1], w[2], w[3])
 
     def refine(self, st, pred, truth):
         """Refine under `pred == truth`; return False when infeasible."""
@@ -323,6 +574,7 @@ class Analysis:
             if b in seen:
                 raise Unsupported("loop through bb%d" % b)
             seen = seen | {b}
+            self.cur = b
             blk = f.blocks[b]
             for s in blk["st"]:
                 if s[0] == "a":
@@ -354,6 +606,13 @@ class Analysis:
                 if a[0] == "b" and st.pred[a[1]][0] not in ("const", "unknown"):
                     if not self.refine(st2, st.pred[a[1]], bool(t[3])):
                         continue
+                if a[0] == "b" and a[1] in st2.ovf and not bool(t[3]) and str(t[1]).startswith("overflow"):
+                    vk, form, rng = st2.ovf.pop(a[1])
+                    if rng[0] > rng[1]:
+                        continue   # the operation overflows for every value: nothing continues past the assert
+                    lo, hi = st2.iv[vk]
+                    st2.iv[vk] = (max(lo, rng[0]), min(hi, rng[1]))
+                    self.set_aff(st2, vk, form)
                 stack.append((t[4], st2, seen))
             elif k == "sw":
                 a = self.operand(st, t[1])
@@ -372,16 +631,31 @@ class Analysis:
                             if self.refine(s2, p, truth):
                                 stack.append((t[3], s2, seen))
                 elif a[0] == "i":
+                    w = st.discof.get(a[1])
+
+                    def side(s2, value):
+                        """Follow a discriminant of a wrapped checked result: drop the impossible side, log the failing one."""
+                        if w is None or value is None:
+                            return True
+                        (_vk, can_fail, can_succeed, desc), okv = w
+                        if value == okv:
+                            return can_succeed
+                        if not can_fail:
+                            return False
+                        s2.none_steps.append(desc)
+                        return True
                     for v, tb in targets:
                         s2 = st.copy()
-                        if self.refine(s2, (a[1], "Eq", int(v)), True):
+                        if self.refine(s2, (a[1], "Eq", int(v)), True) and side(s2, int(v)):
                             stack.append((tb, s2, seen))
                     s2 = st.copy()
                     ok = True
                     for v, tb in targets:
                         ok = ok and self.refine(s2, (a[1], "Ne", int(v)), True)
                     if ok:
-                        stack.append((t[3], s2, seen))
+                        lo, hi = s2.iv[a[1]]
+                        if side(s2, lo if lo == hi else None):
+                            stack.append((t[3], s2, seen))
                 else:
                     for v, tb in targets:
                         stack.append((tb, st.copy(), seen))
@@ -391,6 +665,20 @@ class Analysis:
                 if self.paths > self.max_paths:
                     raise Unsupported("more than %d paths" % self.max_paths)
                 self.returns.append(self.value_of(st, [0]))
+                wk = _pkey([0])
+                if wk in st.wrap:
+                    # a wrapped checked result returned as it is: Some(payload) where it can succeed, None where it can fail
+                    pvk, can_fail, can_succeed, desc = st.wrap[wk]
+                    if can_succeed:
+                        s2 = st.copy(); ak = s2.fresh(0, 0)
+                        s2.agg[ak] = {"0": pvk}; s2.variant[ak] = "Some"
+                        self.rets.append((s2, ak))
+                    if can_fail:
+                        s3 = st.copy(); nk = s3.fresh(0, 0)
+                        s3.agg[nk] = {}; s3.variant[nk] = "None"; s3.none_steps.append(desc)
+                        self.rets.append((s3, nk))
+                else:
+                    self.rets.append((st, self.vkey(st, [0])))
             else:
                 # unreachable / resume: no value leaves here
                 pass
